@@ -10,7 +10,7 @@ TS-BAL  in topdown_h every decide(..) whose result is not UNSAT is followed on e
         exactly one pop() before the next decide or the return; the UNSAT arm pops nothing.
 """
 from . import mir, tdctx, canon
-from .base import inst, OK, VIOLATION, UNDECIDED, strip, gamma_arms
+from .base import verdict_of, errtext, inst, OK, VIOLATION, UNDECIDED, strip, gamma_arms
 from .facts import CheckerError
 from .mir import show
 
@@ -224,6 +224,66 @@ def ts_stk(prog):
         errs.append("pop pushes")
     out.append(inst("TS-STK", "%s:pop-one" % popf.npath, VIOLATION if errs else OK, popf, None,
                     "; ".join(errs) if errs else "pops exactly one state"))
+    # everything a decision changes is on the stack: a field of the solver that decide (or a helper it hands the whole
+    # solver to) writes and pop does not rewrite keeps the decided state's value after the pop
+    def written(fn, depth=0):
+        w = {}
+        fte = fn.terms
+        for (_, pt, _, line) in fte.stores:
+            p_ = strip(pt)
+            while isinstance(p_, tuple) and p_ and p_[0] in ("field", "deref", "index") and strip(p_[1]) != ("param", 1):
+                p_ = strip(p_[1])
+            if isinstance(p_, tuple) and p_ and p_[0] == "field" and strip(p_[1]) == ("param", 1):
+                w.setdefault(p_[2], line)
+        for cs in fte.calls:
+            if not cs.args:
+                continue
+            a0 = strip(cs.args[0])
+            if a0 == ("param", 1) and depth < 2:
+                for h in prog.resolve(cs.callee):
+                    if h.impl_self == S and h is not fn and h.argc >= 1 and "&mut" in (h.locals[1]["s"] if len(h.locals) > 1 else ""):
+                        for k_, v_ in written(h, depth + 1).items():
+                            w.setdefault(k_, cs.line)
+            if a0[0] == "field" and strip(a0[1]) == ("param", 1) and cs.callee.name in \
+                    ("push", "pop", "insert", "remove", "clear", "truncate", "extend", "drain", "retain", "swap_remove", "set", "replace", "take", "append"):
+                w.setdefault(a0[2], cs.line)
+        return w
+    wd, wp = written(dec), written(popf)
+    errs = []
+    def consulted(fld):
+        """is the field read where it decides something (a comparison, a branch, an argument), not merely reported?"""
+        for h in prog.lib_fns:
+            if h.impl_self != S or h.name in ("new",) or not h.blocks:
+                continue
+            hte = h.terms
+            isf = lambda y: y[0] == "field" and y[2] == fld and strip(y[1]) == ("param", 1)
+            conds = [c for (c, _) in hte.switch_term.values()]
+            for c in conds:
+                if any(isf(y) for y in mir.subterms(c)):
+                    return h
+            for x in mir.subterms(hte.ret) if hte.ret is not None else ():
+                if x[0] == "bin" and any(isf(y) for y in mir.subterms(x)):
+                    return h
+            for cs in hte.calls:
+                if "fmt" in cs.callee.key():
+                    continue
+                if any(isf(y) for a in cs.args for y in mir.subterms(a)):
+                    return h
+        return None
+    noted = []
+    for fld, line in sorted(wd.items()):
+        if fld == "state_stack" or fld in wp:
+            continue
+        if consulted(fld) is None:
+            noted.append(fld)
+            continue
+        errs.append("decide writes the solver's field `%s` (line %s) and pop does not: after decide; pop the field still holds the "
+                    "value of the popped state, so whatever reads it answers for a state that no longer exists" % (fld, line))
+    if "state_stack" not in wd:
+        errs.append("?decide does not touch the state stack")
+    out.append(inst("TS-STK", "%s:undo-complete" % dec.npath, verdict_of(errs), dec, None,
+                    errtext(errs) if errs else "the only solver state a decision changes is the state stack, which pop shortens%s"
+                    % ((" (%s: written, never consulted)" % ", ".join(noted)) if noted else "")))
     newf = prog.find1(name="new", self_adt=S, unit="rsdd-lib")
     te = newf.terms
     errs = []
